@@ -147,3 +147,11 @@ From Vicut Require Import Model.Motions.
 (** the cursor after a counted motion *)
 Definition motion_obs (c : text * motion * nat * nat) : N :=
   let '(t, m, count, i) := c in N.of_nat (move t m count i).
+
+From Vicut Require Import Model.Ops.
+(** (operator 0 d / 1 y / 2 c, typed text, text, motion or None for the doubled operator, count, cursor) *)
+Definition op_obs (c : N * text * text * option motion * nat * nat) : text * N * option (bool * text) :=
+  let '(k, ins, t, m, count, i) := c in
+  let k := if k =? 0 then OpDelete else if k =? 1 then OpYank else OpChange in
+  let s := match m with Some m => run_op k ins t m count i | None => run_lines k ins t count i end in
+  (o_text s, N.of_nat (o_cur s), o_reg s).
